@@ -8,7 +8,8 @@
 (*         "starred" (a, *NAME = ..), "listtarget" ([p, NAME] = ..),          *)
 (*         "underscore" (the name _ ) at top level; "method", "selfless"     *)
 (*         (a method that never uses self), "static", "classmeth",           *)
-(*         "classattr" in the body of a top-level class                     *)
+(*         "classattr" in the body of a top-level class; "initclass" (a      *)
+(*         class whose __init__ / __repr__ are what has to survive)          *)
 (* style : naming style of the identifier ("snake", "camel", "upper",        *)
 (*         "private", "dunderish")                                          *)
 (* used  : whether the module itself uses the name                          *)
@@ -39,7 +40,7 @@ Add == /\ Len(defs) < MaxDefs
 Next == Add
 Spec == Init /\ [][Next]_vars
 
-InClass(d) == d.kind \in {"method", "selfless", "static", "classmeth", "classattr"}
+InClass(d) == d.kind \in {"method", "selfless", "static", "classmeth", "classattr", "initclass"}
 
 \* C07: with the safe option every definition is part of the surface
 MustSurviveSafe == {i \in 1..Len(defs) : TRUE}
